@@ -8,6 +8,7 @@ import CM.Model.Loopback
 import CM.Proofs.StackLemmas
 import CM.Proofs.BagReverse
 import CM.Proofs.LoopbackDen
+import CM.Proofs.FactoryCtx
 namespace CM.C10
 open CM
 
@@ -318,5 +319,17 @@ example :
       rw [this]; exact List.mem_singleton.2 rfl
   · exact .earlier (o1 := [⟨30, "a"⟩]) (e1 := [identityEdge ⟨20, "a"⟩ ⟨30, "a"⟩]) (p1 := [⟨30, "a"⟩]) (n1 := 31) (by rfl)
       (.bag (by simp) (by decide +kernel))
+
+/-- **Node level, from the class body: what an inverse field's backward argument receives.**  For a layer built by the factory, the node of
+the public argument `a` of an inverse field is fed, when the layer's context is reversed on the nodes `outs` that came in, by the node of `outs`
+named `a` (`Feeds`) - so (`node_loopback_backward_input`) in the decorated graph the inverse is applied to what came back under the
+names of its arguments, and (`C02.node_factory_field` for private arguments) to the layer's own forward parameters. -/
+theorem node_factory_layer_feeds {r : RawLayer} {b : Bag} (h : r.factory = .ok b) (a : String) (n o : BNode)
+    (hn : nodeAt r.layout.biBase r.layout.backIn a = some n) (outs : List BNode) (next : Nat) (ho : byName outs a = some o) :
+    Feeds b.ctx outs next n o := by
+  obtain ⟨back, hctx⟩ := factory_ctx h
+  rw [hctx]
+  obtain ⟨i, _, _, rfl⟩ := nodeAt_some hn
+  exact .bag (nodeAt_mem hn) ho
 
 end CM.C10
